@@ -151,6 +151,9 @@ class Effects:
         gv = m.find_method(ci, "generic_visit")
         if gv is None:
             return False, "inherits the in-place ast.NodeTransformer.generic_visit"
+        from .normalise import unrolled as _unrolled
+
+        gv = _unrolled(m, gv)  # the copy may be made by a private helper: read in place
         fa = self.ctx.analysis(gv)
         node_p = gv.pos_params[1] if len(gv.pos_params) > 1 else None
         if node_p is None:
@@ -208,8 +211,18 @@ class Effects:
 
             for s in [x for x in ast.walk(n) if isinstance(x, ast.Expr) and isinstance(x.value, ast.Call) and isinstance(x.value.func, ast.Name) and x.value.func.id == "setattr"]:
                 a = s.value.args
-                if not (len(a) == 3 and isinstance(a[0], ast.Name) and a[0].id == copy_name and isinstance(a[1], ast.Name) and a[1].id == fvar and _is_list_copy(a[2], vvar)):
+                if not (len(a) == 3 and isinstance(a[0], ast.Name) and isinstance(a[1], ast.Name) and a[1].id == fvar and _is_list_copy(a[2], vvar)):
                     continue
+                if a[0].id != copy_name:
+                    # another name for the same copy (the helper that made it was read in place)
+                    try:
+                        t0 = strip_sites(host_fa.term_of(a[0]))
+                    except AnalysisError:
+                        continue
+                    while t0[0] == "upd":
+                        t0 = t0[1]
+                    if t0 != base:
+                        continue
                 conds = [(x_, p_) for x_, p_ in _Facts(host_fa, s, expand=False).atoms if any(y_ is x_ or True for y_ in [0]) and any(isinstance(z_, ast.Name) and z_.id in (vvar, fvar) for z_ in ast.walk(x_))]
                 is_list = [(x_, p_) for x_, p_ in conds if isinstance(x_, ast.Call) and isinstance(x_.func, ast.Name) and x_.func.id == "isinstance" and len(x_.args) == 2 and isinstance(x_.args[0], ast.Name) and x_.args[0].id == vvar and isinstance(x_.args[1], ast.Name) and x_.args[1].id == "list" and p_]
                 if len(is_list) != 1 or len(conds) != 1:
